@@ -43,6 +43,20 @@ Proof.
 Qed.
 Print Assumptions C05_advance.
 
+(* "all orders in which simultaneously due timer and caller actions are processed": an advance that stops at
+   instant t with the firing due exactly at t still pending (the caller's next action at t comes first) has done
+   exactly what an exact advance to t - 1 does - in particular nothing has expired early - the invariant
+   (timer armed for the earliest trigger, which may now be the current instant) still holds, so that the next
+   advance, whatever the caller does at t in between, fires what is due at t (C05_advance under GInv t) *)
+Theorem C05_caller_before_simultaneous_timer now c t r :
+  GInv now c -> now < t ->
+  let res := cstep (now, c) (CAdvB t) in
+  fst (fst res) = t /\ GInv t (snd (fst res)) /\
+  c_entries (snd (fst res)) = filter_map (trim_upto (t - 1)) (c_entries c) /\
+  sigs_for r (snd res) = match stored r (c_entries c) with Some e => expect (e_rec e) (e_trig e) (t - 1) | None => [] end.
+Proof. exact (cadvb_spec now c t r). Qed.
+Print Assumptions C05_caller_before_simultaneous_timer.
+
 (* lookups return exactly the records of the stored entries that the name/type filter selects *)
 Theorem C05_lookup name type c r :
   In r (lookup name type c) <-> exists e, In e (c_entries c) /\ e_rec e = r /\ cache_lookup_match name type r = true.
@@ -59,4 +73,14 @@ Example C05_example :
   crun (0, empty_cache) [CAdd a 7; CAdv 1999; CLookup None 255; CAdv 2000; CLookup None 255]
   = [OSig 1007 (ShouldQuery a) [a]; OSig 1707 (ShouldQuery a) [a]; OSig 1807 (ShouldQuery a) [a];
      OSig 1907 (ShouldQuery a) [a]; OLookup [a]; OSig 2000 (Expired a) []; OLookup []].
+Proof. vm_compute. reflexivity. Qed.
+
+(* ... and when the caller re-adds another record at the very instant the first one is due to expire, before the
+   timer is processed, the first still expires at that instant and the second lives on *)
+Example C05_example_simultaneous :
+  let a := set_ttl 1 (set_addr (A4 1) (set_type 1 (set_name (Some [97; 46]%N) default_record))) in
+  let b := set_ttl 2 (set_addr (A4 2) (set_type 1 (set_name (Some [98; 46]%N) default_record))) in
+  concat (skipn 1 (crun_g (0, empty_cache) [CAdd a 0; CAdvB 1000; CLookup None 255; CAdd b 0; CAdv 1000; CLookup None 255]))
+  = [OSig 500 (ShouldQuery a) [a]; OSig 850 (ShouldQuery a) [a]; OSig 900 (ShouldQuery a) [a];
+     OSig 950 (ShouldQuery a) [a]; OLookup [a]; OSig 1000 (Expired a) [b]; OLookup [b]].
 Proof. vm_compute. reflexivity. Qed.
